@@ -149,6 +149,9 @@ def gen_case(rng, variant=None, force=None):
          "t0": t0, "interval": interval, "dt": dt, "qconst": qconst,
          "xu": [[[fstr(v) for v in p] for p in frm] for frm in xu], "cond": cond, "nn": nn,
          "thin": (rng.randint(1, 10 ** 9) if (nn >= 2 and rng.random() < 0.5) else 0)}
+    # call history on ONE Dynamics / LogDynamics object: an earlier relaxation() with another wavenumber, result discarded
+    if rng.random() < 0.35:
+        c["prior_qconst"] = rng.choice([q for q in ["2pi", "4.0", "7.1", "3.3"] if q != qconst])
     c.update({k: v for k, v in force.items() if k not in ("d", "T", "N", "mode")})
     return c
 
@@ -314,6 +317,8 @@ def real_rows(c, coords=None):
     try:
         obj, pos, nbs, _ = build(c, tmp, coords)
         q = 2 * np.pi if c["qconst"] == "2pi" else float(c["qconst"])
+        if c.get("prior_qconst"):
+            obj.relaxation(qconst=(2 * np.pi if c["prior_qconst"] == "2pi" else float(c["prior_qconst"])), condition=np_cond(c))
         res = obj.relaxation(qconst=q, condition=np_cond(c))
         if list(res.columns) != COLS:
             raise ValueError(f"columns {list(res.columns)}")
@@ -440,6 +445,7 @@ def judge(run, cases, which):
         for key in ("variant", "d", "mode", "motion", "cell", "fast", "T", "N"):
             run.hist(key, c[key])
         run.hist("selection", "none" if c["cond"] is None else ("const" if const_count(c) else "varying"))
+        run.hist("history", "second relaxation() on the object" if c.get("prior_qconst") else "first call")
         run.hist("cage", bool(c["nn"])); run.hist("cage_cn", "variable" if c.get("thin") else ("fixed" if c["nn"] else "none"))
         qcol = real[:, 2]
         nontriv = c["T"] >= 3 and bool(np.any((qcol > 0) & (qcol < 1)))
@@ -489,6 +495,12 @@ def real_sq4(c):
     tmp = tempfile.mkdtemp(prefix="c06-")
     try:
         obj, pos, nbs, spos = build(c, tmp)
+        if c.get("prior_qconst"):      # earlier calls on the same object: a relaxation() and an sq4 at the smallest lag
+            obj.relaxation(qconst=(2 * np.pi if c["prior_qconst"] == "2pi" else float(c["prior_qconst"])), condition=np_cond(c))
+            try:
+                obj.sq4(t=float(c["interval"]) * float(c["dt"]), qrange=float(c["qrange"]), condition=np_cond(c))
+            except ZeroDivisionError:
+                pass      # an empty mobility mask at that lag (outside the statement); it is only history here
         res = obj.sq4(t=float(c["t"]), qrange=float(c["qrange"]), condition=np_cond(c))
         if list(res.columns) != ["q", "Sq"]:
             raise ValueError(f"columns {list(res.columns)}")
